@@ -223,14 +223,26 @@ def regenerate():
     """returns None on success, else an error string"""
     try:
         gen_boards()
-        for f in EXTRA:
+        for f in extra_generators():
             f()
-    except (GenError, OSError, ValueError, IndexError, SyntaxError) as e:
+    except Exception as e:  # any failure of the translator is a broken tie, reported by the caller
         return "%s: %s" % (type(e).__name__, e)
     return None
 
 
-EXTRA = []
+def extra_generators():
+    """tools/genx_*.py each define generate() (one translator plugin per table family)"""
+    import importlib.util
+    out = []
+    d = os.path.dirname(os.path.abspath(__file__))
+    for f in sorted(os.listdir(d)):
+        if f.startswith("genx_") and f.endswith(".py"):
+            spec = importlib.util.spec_from_file_location(f[:-3], os.path.join(d, f))
+            m = importlib.util.module_from_spec(spec)
+            spec.loader.exec_module(m)
+            out.append(m.generate)
+    return out
+
 
 if __name__ == "__main__":
     print(regenerate() or "generated")
